@@ -5,7 +5,7 @@ import sys, json, random, os
 sys.path.insert(0, os.path.join(os.path.dirname(os.path.abspath(__file__)), '..', 'lib'))
 from common import tag
 rnd = random.Random(int(sys.argv[1]) * 31 + 5); N = int(sys.argv[2])
-KEYS = ['a', 'b', 'ab', 'a b', "a'b", 'a"b', '', '0', '1', '10', 'é', '☺', '𝄞', "'a'", '"a"', 'a/b', 'a~b', '~0', '~1', '/', '\\', 'x\ty', 'x\ny', '\u0001', ' a', 'a ', '-1', '01', 'a.b', '[0]', '$', '@', '*', 'a ', ' ']
+KEYS = ['\x7f', 'a\x7fb', 'a', 'b', 'ab', 'a b', "a'b", 'a"b', '', '0', '1', '10', 'é', '☺', '𝄞', "'a'", '"a"', 'a/b', 'a~b', '~0', '~1', '/', '\\', 'x\ty', 'x\ny', '\u0001', ' a', 'a ', '-1', '01', 'a.b', '[0]', '$', '@', '*', 'a ', ' ']
 SCAL = [None, True, 0, 1, 'a', 1.5]
 def doc(depth=0):
     r = rnd.random()
